@@ -304,7 +304,10 @@ class Gen:
                 cand = [sf for sf in sub["fields"] if sf["t"] == "int" and not any(k in sf for k in ("rep", "opt"))]
                 if cand:
                     choices += ["last_field_eq", "last_field_eq"]
-            if self.p["allow_raw_callbacks"]:
+            always_consumes = (elem["t"] == "int" or (elem["t"] == "data" and (
+                (elem["mode"] == "const" and elem["size"] > 0) or elem["mode"] == "marker")))
+            if self.p["allow_raw_callbacks"] and always_consumes:
+                # (an element that may consume nothing would loop forever under these conditions)
                 choices += ["at_end", "peek_eq"]
             u = rng.choice(choices)
             if u == "len_ge":
